@@ -94,6 +94,14 @@ theorem mg_limits (e0 eps : Cx ℝ) (A : ℝ × ℝ × ℝ) :
   · intro h0
     simp only [mgMean, mgComponent_f1 _ _ _ h0]; apply toC_inj; simp only [toC_sdiv, toC_add]; push_cast; ring
 
+/-- **mg_spheres_passive**: Maxwell Garnett for spheres (= Hashin-Shtrikman, = the general formula at depolarisation 1/3) of two passive
+    media - positive real parts, non-negative imaginary parts - is passive for every fractional volume in `[0, 1]`: `Re > 0`, `Im ≥ 0`
+    (the numerators are sums of non-negative monomials in the real and imaginary parts) -/
+theorem mg_spheres_passive (f : ℝ) (e0 eps : Cx ℝ) (hf0 : 0 ≤ f) (hf1 : f ≤ 1) (h0 : 0 < e0.re) (he : 0 < eps.re)
+    (h0i : 0 ≤ e0.im) (hei : 0 ≤ eps.im) : 0 < (mgSpheres f e0 eps).re ∧ 0 ≤ (mgSpheres f e0 eps).im := by
+  rcases e0 with ⟨a, b⟩; rcases eps with ⟨c, d⟩
+  exact ⟨mgSpheres_re_pos f a b c d hf0 hf1 h0 he h0i hei, mgSpheres_im_nonneg f a b c d hf0 hf1 h0 he h0i hei⟩
+
 /-! ### loss-free constituents: bounds and monotonicity -/
 
 /-- Maxwell Garnett with any depolarisation factors in `[0,1]` (spheres, spheroids of any length ratio) is real and lies
